@@ -83,7 +83,10 @@ def gen_case(rng):
                         f["attrs"].append("#[ord(reverse)]")
                 elif mode.startswith("key"):
                     rv = ", reverse" if "reverse" in mode and any(t in dcmp for t in ("Ord", "PartialOrd")) else ""
-                    f["attrs"].append(f"#[ord(key = {D}g_key(&$){rv})]")
+                    # the key expression may mention `Self` (it is written inside impls)
+                    kx = rng.choice([f"{D}g_key(&$)", f"{D}g_key(&$)", f"{{ let _ = ::core::marker::PhantomData::<Self>; {D}g_key(&$) }}",
+                                     f"({D}g_key(&$), ::core::mem::size_of::<::core::option::Option<&Self>>()).0"])
+                    f["attrs"].append(f"#[ord(key = {kx}{rv})]")
                 else:
                     f["attrs"].append(f"#[ord(by = {D}g_cmp)]")
                     if "Hash" in dcmp:
@@ -123,8 +126,13 @@ def gen_case(rng):
     dv = None
     if kind == "enum" and "Default" in traits and nv:
         dv = rng.randrange(nv)
+    # a std derive below derive_ex that owns a helper attribute of the same name: #[derive(Default)] + #[default] on a unit variant
+    stdv = None
+    units = [i for i, v in enumerate(variants) if v["style"] == "unit"]
+    if kind == "enum" and "Default" not in traits and units and rng.random() < 0.3:
+        stdv = rng.choice(units)
     return {"kind": kind, "traits": traits, "variants": variants, "decl": decl, "where": wh, "dv": dv,
-            "entry": rng.choice(["attr", "derive"]), "split": rng.random() < 0.15}
+            "entry": rng.choice(["attr", "derive"]), "split": rng.random() < 0.15, "stdv": stdv}
 
 
 def render(s, with_dx=True):
@@ -143,11 +151,13 @@ def render(s, with_dx=True):
     else:
         vs = []
         for vi, b in enumerate(bodies):
-            m = "#[default] " if (with_dx and s["dv"] == vi and (len(bodies) > 1 or vi % 2 == 0)) else ""
+            m = "#[default] " if ((with_dx and s["dv"] == vi and (len(bodies) > 1 or vi % 2 == 0)) or s.get("stdv") == vi) else ""
             vs.append(f"{m}V{vi}{b}")
         item = f"pub enum Ty{g}{wh} {{ " + ", ".join(vs) + " }"
+    std = "#[derive(Default)]\n" if s.get("stdv") is not None else ""
     if not with_dx:
-        return item
+        return std + item
+    item = std + item
     tr = s["traits"]
     if s["split"] and len(tr) >= 2:
         parts = [", ".join(tr[:len(tr) // 2]), ", ".join(tr[len(tr) // 2:])]
@@ -210,8 +220,15 @@ def run(rep, tier, rng):
     cases = []
     for i in range(NGRAMMAR[tier]):
         s = gen_case(rng)
-        cases.append(C.Case(f"g{i}", render(s), {"spec": s, "src": "grammar"}))
-        cases.append(C.Case(f"k{i}", render(s, with_dx=False), {"control": True}))
+        code, ctl = render(s), render(s, with_dx=False)
+        if i % 5 == 0:
+            # a second derived type in the same scope: whatever the expansion puts next to the impls must not collide
+            s2 = gen_case(rng)
+            code += "\n" + re.sub(r"\bTy\b", "Tz", render(s2))
+            ctl += "\n" + re.sub(r"\bTy\b", "Tz", render(s2, with_dx=False))
+            s = dict(s, second=describe(s2), traits=s["traits"] + [t for t in s2["traits"] if t not in s["traits"]])
+        cases.append(C.Case(f"g{i}", code, {"spec": s, "src": "grammar"}))
+        cases.append(C.Case(f"k{i}", ctl, {"control": True}))
     for j, b in enumerate(progs.base_programs(rng, NBASE[tier])):
         code = b["code"].replace("pub fn run() {", "#[allow(warnings)] pub fn run() {").replace("\nfn dump(", "\n#[allow(warnings)] fn dump(")
         cases.append(C.Case(f"b{j}", code, {"src": b["src"], "traits": b["traits"]}))
@@ -251,7 +268,7 @@ def run(rep, tier, rng):
             def in_std_derive(d):
                 return any(m.startswith("#[derive(") and "Ex" not in m for m in d.get("macros", []))
             bad = [d for d in c.diags if d["level"] == "error" and (d["code"] or "E").startswith("E") and not lint_allowed(d, allowed)
-                   and not in_std_derive(d)]
+                   and not (c.meta["src"] != "grammar" and in_std_derive(d))]
         if bad:
             d = bad[0]
             ft = features(c.meta["spec"]) if c.meta["src"] == "grammar" else c.meta["src"]
